@@ -1,1 +1,898 @@
-fn main(){}
+//! wire-sim: the real `Packet::{write_to, write_compressed_to, build_bytes_vec*}` driving a
+//! simulated `Write + Seek` device with fault injection. Decides C04 and C07.
+//!
+//! usage:
+//!   wiresim check <C04|C07> [--tier quick|thorough] [--seed N] [--cases N] [--jobs N]
+//!   wiresim replay <file>
+//! exit codes: 0 held (or only known findings), 1 VIOLATION, 2 harness error.
+
+mod oracle;
+mod simwriter;
+
+use std::collections::{BTreeMap, HashSet};
+use std::path::{Path, PathBuf};
+use std::time::Instant;
+
+use dnsgen::bridge::{self, OptSpec};
+use dnsgen::gen::{self, LabelStyle, PacketCfg, Sizes};
+use oracle::{check_frame, check_pointers, check_writer, Finding, PtrStats};
+use refdns::{MsgSpec, F};
+use serde::{Deserialize, Serialize};
+use simrt::rng::{mix, Rng};
+use simwriter::{build_vec, exec, Fault, Mode, Res, WriterCfg};
+
+#[derive(Clone, Debug, Serialize, Deserialize)]
+struct Replay {
+    property: String,
+    signature: String,
+    detail: String,
+    verif_seed: u64,
+    case_seed: u64,
+    minimised: bool,
+    spec: MsgSpec,
+    opt: Option<OptSpec>,
+    mode: Mode,
+    /// None: the vector-returning entry point itself
+    writer: Option<WriterCfg>,
+}
+
+#[derive(Default, Clone)]
+struct Stats {
+    cases: u64,
+    execs: u64,
+    frame_checks: u64,
+    ptr_checks: u64,
+    nontrivial: HashSet<u64>,
+    ptr_nontrivial: HashSet<u64>,
+    fault_fired: BTreeMap<String, u64>,
+    fault_planned: BTreeMap<String, u64>,
+    writer_kinds: BTreeMap<String, u64>,
+    capacity_binding: u64,
+    origin_nonzero: u64,
+    prefilled: u64,
+    over_64k_skipped: u64,
+    msgs_over_16k: u64,
+    max_len: usize,
+    ptr: PtrStats,
+    rtypes: HashSet<u16>,
+    samples: Vec<serde_json::Value>,
+}
+
+impl Stats {
+    fn merge(&mut self, o: Stats) {
+        self.cases += o.cases;
+        self.execs += o.execs;
+        self.frame_checks += o.frame_checks;
+        self.ptr_checks += o.ptr_checks;
+        self.nontrivial.extend(o.nontrivial);
+        self.ptr_nontrivial.extend(o.ptr_nontrivial);
+        for (k, v) in o.fault_fired {
+            *self.fault_fired.entry(k).or_default() += v;
+        }
+        for (k, v) in o.fault_planned {
+            *self.fault_planned.entry(k).or_default() += v;
+        }
+        for (k, v) in o.writer_kinds {
+            *self.writer_kinds.entry(k).or_default() += v;
+        }
+        self.capacity_binding += o.capacity_binding;
+        self.origin_nonzero += o.origin_nonzero;
+        self.prefilled += o.prefilled;
+        self.over_64k_skipped += o.over_64k_skipped;
+        self.msgs_over_16k += o.msgs_over_16k;
+        self.max_len = self.max_len.max(o.max_len);
+        self.ptr.names += o.ptr.names;
+        self.ptr.pointers += o.ptr.pointers;
+        self.ptr.never_names += o.ptr.never_names;
+        self.ptr.must_repeats += o.ptr.must_repeats;
+        self.ptr.beyond_16k_names += o.ptr.beyond_16k_names;
+        self.ptr.repeats_of_beyond_16k += o.ptr.repeats_of_beyond_16k;
+        self.ptr.desync += o.ptr.desync;
+        self.rtypes.extend(o.rtypes);
+        if self.samples.len() < 6 {
+            self.samples.extend(o.samples.into_iter().take(2));
+        }
+    }
+}
+
+fn hash_bytes(b: &[u8]) -> u64 {
+    let mut h = 0xcbf2_9ce4_8422_2325u64;
+    for x in b {
+        h ^= *x as u64;
+        h = h.wrapping_mul(0x0000_0100_0000_01B3);
+    }
+    h
+}
+
+fn fault_name(f: &Fault) -> &'static str {
+    match f {
+        Fault::ErrOnWrite(_) => "write-error",
+        Fault::ErrOnSeek(_) => "seek-error",
+        Fault::ErrOnFlush => "flush-error",
+        Fault::ZeroOnWrite(_) => "write-zero",
+        Fault::ErrAtByte(_) => "device-error-at-byte",
+        Fault::ShortOnWrite(..) => "short-write",
+        Fault::IntrOnWrite(_) => "interrupted",
+        Fault::ChunkAll(_) => "chunked-writes",
+    }
+}
+
+/// Swarm-style case configuration: every knob drawn per case.
+fn case_cfg(r: &mut Rng, prop: &str) -> PacketCfg {
+    let class = r.below(100);
+    let big_bias = if prop == "C07" { 12 } else { 4 };
+    let mut cfg = PacketCfg::default();
+    cfg.style = if r.chance(1, 3) { LabelStyle::Binary } else { LabelStyle::Plain };
+    cfg.max_label = *r.pick(&[1usize, 3, 8, 20, 63]);
+    cfg.pool = 3 + r.usize_below(10);
+    cfg.opt_chance_pct = *r.pick(&[0u64, 0, 25, 60]);
+    if class < 25 {
+        cfg.max_q = 1;
+        cfg.max_rr = 1;
+        cfg.sizes = Sizes { blob_max: 6, txt_strings_max: 2, txt_string_max: 6 };
+    } else if class < 100 - big_bias {
+        cfg.max_q = 3;
+        cfg.max_rr = 1 + r.usize_below(5);
+        cfg.sizes = Sizes { blob_max: *r.pick(&[0usize, 4, 40, 255]), txt_strings_max: 4, txt_string_max: *r.pick(&[1usize, 40, 255]) };
+    } else {
+        // large: cross 16 KiB, names first appearing beyond offset 16383 and then repeated
+        cfg.max_q = 2;
+        cfg.max_rr = 6 + r.usize_below(8);
+        cfg.pool = 4 + r.usize_below(6);
+        cfg.sizes = Sizes { blob_max: *r.pick(&[1500usize, 3000, 6000]), txt_strings_max: 24, txt_string_max: 255 };
+    }
+    cfg
+}
+
+struct Tier {
+    cases: u64,
+    /// exhaustive capacity / fault-index enumeration up to this message length
+    exhaustive_len: usize,
+    samples_per_dim: usize,
+}
+
+struct CaseOut {
+    findings: Vec<(Finding, Mode, Option<WriterCfg>)>,
+}
+
+fn sample_points(r: &mut Rng, n: usize, limit: usize, boundaries: &[usize]) -> Vec<usize> {
+    // all points if small; else boundaries +-2 and random
+    if limit <= n {
+        return (0..=limit).collect();
+    }
+    let mut s: HashSet<usize> = HashSet::new();
+    for &b in boundaries {
+        for d in 0..5usize {
+            let v = (b + d).saturating_sub(2);
+            if v <= limit {
+                s.insert(v);
+            }
+        }
+    }
+    s.insert(0);
+    s.insert(limit);
+    let mut v: Vec<usize> = s.into_iter().collect();
+    v.sort();
+    if v.len() > n {
+        r.shuffle(&mut v);
+        v.truncate(n);
+    }
+    while v.len() < n {
+        v.push(r.usize_below(limit + 1));
+    }
+    v.sort();
+    v.dedup();
+    v
+}
+
+/// Run the whole enumeration for one generated packet.
+fn run_case(prop: &str, spec: &MsgSpec, opt: Option<&OptSpec>, r: &mut Rng, tier: &Tier, st: &mut Stats) -> CaseOut {
+    let mut out = CaseOut { findings: Vec::new() };
+    let packet = bridge::packet(spec, opt);
+    let spec_hash = hash_bytes(format!("{:?}{:?}", spec, opt).as_bytes());
+    st.cases += 1;
+    for rec in spec.answers.iter().chain(&spec.authority).chain(&spec.additional) {
+        st.rtypes.insert(rec.rtype);
+    }
+    let modes: &[Mode] = if prop == "C07" { &[Mode::Compressed] } else { &[Mode::Plain, Mode::Compressed] };
+    for &mode in modes {
+        let (res, bytes) = build_vec(&packet, mode);
+        st.execs += 1;
+        let reference = match (res, bytes) {
+            (Res::Ok, Some(b)) => b,
+            (Res::Panic(p), _) => {
+                out.findings.push((Finding { prop: "C04", sig: "build:panic".into(), detail: p }, mode, None));
+                continue;
+            }
+            (Res::Err(e), _) => {
+                out.findings.push((Finding { prop: "C04", sig: "build:error-on-valid-packet".into(), detail: e }, mode, None));
+                continue;
+            }
+            _ => unreachable!(),
+        };
+        let l = reference.len();
+        if l > 65535 {
+            st.over_64k_skipped += 1;
+            continue;
+        }
+        st.max_len = st.max_len.max(l);
+        if l > 16383 {
+            st.msgs_over_16k += 1;
+        }
+        if st.samples.len() < 2 && l < 120 {
+            st.samples.push(serde_json::json!({"mode": format!("{:?}", mode), "message_hex": hex(&reference), "questions": spec.questions.len(), "answers": spec.answers.len(), "authority": spec.authority.len(), "additional": spec.additional.len(), "opt": opt.is_some()}));
+        }
+        if prop == "C04" {
+            st.frame_checks += 1;
+            for fd in check_frame(&reference, spec, opt, mode) {
+                out.findings.push((fd, mode, None));
+            }
+        }
+        if prop == "C07" && mode == Mode::Compressed {
+            st.ptr_checks += 1;
+            let (fds, ps) = check_pointers(&reference, spec, opt, false);
+            if ps.pointers > 0 {
+                st.ptr_nontrivial.insert(hash_bytes(&reference));
+            }
+            add_ptr(&mut st.ptr, &ps);
+            for fd in fds {
+                out.findings.push((fd, mode, None));
+            }
+        }
+
+        // ---- writer configurations
+        let k = 3 + r.usize_below(40);
+        let mut cfgs: Vec<WriterCfg> = Vec::new();
+        // (a) std writer kinds x origin x {empty, pre-filled}
+        if mode == Mode::Plain {
+            cfgs.push(WriterCfg::VecAppend { prefill: 0 });
+            cfgs.push(WriterCfg::VecAppend { prefill: k });
+        }
+        for (o, p) in [(0, 0), (2, 2), (k, k), (0, l + 5), (2, l + 9), (k, k + l + 3), (k, k + l / 2), (0, l), (0, l.saturating_sub(1))] {
+            cfgs.push(WriterCfg::CursorVec { origin: o, prefill: p });
+            cfgs.push(WriterCfg::Sim { origin: o, prefill: p, cap: None, faults: vec![] });
+        }
+        for (o, p) in [(0, 0), (k, k), (2, l + 9)] {
+            cfgs.push(WriterCfg::CursorVecRef { origin: o, prefill: p });
+        }
+        if prop == "C04" {
+            // (b) fixed capacity writers: every capacity 0..=len+2 (sampled above exhaustive_len)
+            let caps = sample_points(r, if l <= tier.exhaustive_len { l + 2 } else { tier.samples_per_dim }, l + 2, &[12, l]);
+            for &c in &caps {
+                if mode == Mode::Plain {
+                    cfgs.push(WriterCfg::Slice { cap: c });
+                }
+                cfgs.push(WriterCfg::CursorSlice { origin: 0, cap: c });
+                cfgs.push(WriterCfg::Sim { origin: 0, prefill: 0, cap: Some(c), faults: vec![] });
+            }
+            let caps2 = sample_points(r, tier.samples_per_dim.min(l + 2), l + 2, &[12, l]);
+            for &c in &caps2 {
+                cfgs.push(WriterCfg::CursorSlice { origin: 2, cap: 2 + c });
+                cfgs.push(WriterCfg::CursorSlice { origin: k, cap: k + c });
+                cfgs.push(WriterCfg::Sim { origin: k, prefill: k + c, cap: Some(k + c), faults: vec![] });
+            }
+            // (c) a hard fault at every call index
+            let probe = exec(&packet, mode, &WriterCfg::Sim { origin: 0, prefill: 0, cap: None, faults: vec![] });
+            let (wn, sn, _) = probe.calls;
+            let wi = sample_points(r, if l <= tier.exhaustive_len { wn as usize } else { tier.samples_per_dim }, wn as usize, &[1, wn as usize]);
+            for &n in &wi {
+                if n == 0 {
+                    continue;
+                }
+                cfgs.push(WriterCfg::Sim { origin: 0, prefill: 0, cap: None, faults: vec![Fault::ErrOnWrite(n as u32)] });
+                if r.chance(1, 3) {
+                    cfgs.push(WriterCfg::Sim { origin: k, prefill: k + l + 2, cap: None, faults: vec![Fault::ZeroOnWrite(n as u32)] });
+                }
+            }
+            for n in 1..=sn {
+                cfgs.push(WriterCfg::Sim { origin: 0, prefill: 0, cap: None, faults: vec![Fault::ErrOnSeek(n)] });
+            }
+            cfgs.push(WriterCfg::Sim { origin: 0, prefill: 0, cap: None, faults: vec![Fault::ErrOnFlush] });
+            cfgs.push(WriterCfg::Sim { origin: k, prefill: k, cap: None, faults: vec![Fault::ErrOnFlush] });
+            let bi = sample_points(r, tier.samples_per_dim.min(l + 1), l, &[12, l]);
+            for &b in &bi {
+                cfgs.push(WriterCfg::Sim { origin: 0, prefill: 0, cap: None, faults: vec![Fault::ErrAtByte(b as u64)] });
+            }
+        }
+        // (d) transparent faults: identical outcome required
+        cfgs.push(WriterCfg::Sim { origin: 0, prefill: 0, cap: None, faults: vec![Fault::ChunkAll(1)] });
+        cfgs.push(WriterCfg::Sim { origin: k, prefill: k + l + 1, cap: None, faults: vec![Fault::ChunkAll(1 + r.below(7) as u32)] });
+        for _ in 0..3 {
+            let mut fs = Vec::new();
+            for _ in 0..1 + r.usize_below(4) {
+                let n = 1 + r.below(60) as u32;
+                fs.push(if r.chance(1, 2) { Fault::IntrOnWrite(n) } else { Fault::ShortOnWrite(n, 1 + r.below(3) as u32) });
+            }
+            let (o, p) = *r.pick(&[(0usize, 0usize), (2, 2), (k, k + l + 4)]);
+            cfgs.push(WriterCfg::Sim { origin: o, prefill: p, cap: None, faults: fs });
+        }
+
+        for cfg in cfgs {
+            if !cfg.supports(mode) {
+                continue;
+            }
+            let o = exec(&packet, mode, &cfg);
+            st.execs += 1;
+            *st.writer_kinds.entry(cfg.kind().into()).or_default() += 1;
+            let mut nontrivial = false;
+            if let WriterCfg::Sim { faults, .. } = &cfg {
+                for fl in faults {
+                    *st.fault_planned.entry(fault_name(fl).into()).or_default() += 1;
+                }
+                if o.hard_fired || o.transparent_fired {
+                    nontrivial = true;
+                    for fl in faults {
+                        *st.fault_fired.entry(fault_name(fl).into()).or_default() += 1;
+                    }
+                }
+            }
+            if let Some(cap) = cfg.capacity() {
+                if cfg.origin() + l > cap {
+                    st.capacity_binding += 1;
+                    nontrivial = true;
+                }
+            }
+            if cfg.origin() > 0 {
+                st.origin_nonzero += 1;
+                nontrivial = true;
+            }
+            if cfg.initial_len() > cfg.origin() {
+                st.prefilled += 1;
+                nontrivial = true;
+            }
+            if nontrivial {
+                st.nontrivial.insert(mix(spec_hash, hash_bytes(format!("{:?}{:?}", mode, cfg).as_bytes())));
+            }
+            if prop == "C04" {
+                for fd in check_writer(&o, &reference, &cfg, mode) {
+                    out.findings.push((fd, mode, Some(cfg.clone())));
+                }
+            }
+            if prop == "C07" && mode == Mode::Compressed && matches!(o.res, Res::Ok) && !o.hard_fired {
+                // pointers are judged relative to the first byte of the message on the device
+                let ori = cfg.origin();
+                if o.buf.len() >= ori + l {
+                    let region = &o.buf[ori..ori + l];
+                    st.ptr_checks += 1;
+                    let (fds, ps) = check_pointers(region, spec, opt, ori != 0);
+                    if ps.pointers > 0 {
+                        st.ptr_nontrivial.insert(mix(hash_bytes(region), ori as u64));
+                    }
+                    add_ptr(&mut st.ptr, &ps);
+                    for fd in fds {
+                        out.findings.push((fd, mode, Some(cfg.clone())));
+                    }
+                }
+            }
+        }
+    }
+    out
+}
+
+fn add_ptr(a: &mut PtrStats, b: &PtrStats) {
+    a.names += b.names;
+    a.pointers += b.pointers;
+    a.never_names += b.never_names;
+    a.must_repeats += b.must_repeats;
+    a.beyond_16k_names += b.beyond_16k_names;
+    a.repeats_of_beyond_16k += b.repeats_of_beyond_16k;
+    a.desync += b.desync;
+}
+
+fn hex(b: &[u8]) -> String {
+    b.iter().map(|x| format!("{:02x}", x)).collect()
+}
+
+/// Re-run exactly one configuration and return the findings for `prop`.
+fn check_one(prop: &str, spec: &MsgSpec, opt: Option<&OptSpec>, mode: Mode, writer: Option<&WriterCfg>) -> Vec<Finding> {
+    let packet = bridge::packet(spec, opt);
+    let mut fds = Vec::new();
+    let (res, bytes) = build_vec(&packet, mode);
+    let reference = match (res, bytes) {
+        (Res::Ok, Some(b)) => b,
+        (Res::Panic(p), _) => return vec![Finding { prop: "C04", sig: "build:panic".into(), detail: p }],
+        (Res::Err(e), _) => return vec![Finding { prop: "C04", sig: "build:error-on-valid-packet".into(), detail: e }],
+        _ => unreachable!(),
+    };
+    match writer {
+        None => {
+            if prop == "C04" {
+                fds.extend(check_frame(&reference, spec, opt, mode));
+            } else if mode == Mode::Compressed {
+                fds.extend(check_pointers(&reference, spec, opt, false).0);
+            }
+        }
+        Some(cfg) => {
+            let o = exec(&packet, mode, cfg);
+            if prop == "C04" {
+                fds.extend(check_writer(&o, &reference, cfg, mode));
+            } else if matches!(o.res, Res::Ok) && !o.hard_fired {
+                let ori = cfg.origin();
+                let l = reference.len();
+                if o.buf.len() >= ori + l {
+                    fds.extend(check_pointers(&o.buf[ori..ori + l], spec, opt, ori != 0).0);
+                }
+            }
+        }
+    }
+    fds.into_iter().filter(|f| f.prop == prop).collect()
+}
+
+/// Delta-debugging style minimisation: keep a candidate iff the same signature reappears.
+fn minimise(rp: &Replay) -> Replay {
+    let mut cur = rp.clone();
+    let still = |c: &Replay| check_one(&c.property, &c.spec, c.opt.as_ref(), c.mode, c.writer.as_ref()).iter().any(|f| f.sig == c.signature);
+    if !still(&cur) {
+        return cur;
+    }
+    let mut progress = true;
+    let mut rounds = 0;
+    while progress && rounds < 40 {
+        progress = false;
+        rounds += 1;
+        // drop entries
+        for sec in 0..4 {
+            let mut i = 0;
+            loop {
+                let len = match sec {
+                    0 => cur.spec.questions.len(),
+                    1 => cur.spec.answers.len(),
+                    2 => cur.spec.authority.len(),
+                    _ => cur.spec.additional.len(),
+                };
+                if i >= len {
+                    break;
+                }
+                let mut c = cur.clone();
+                match sec {
+                    0 => {
+                        c.spec.questions.remove(i);
+                    }
+                    1 => {
+                        c.spec.answers.remove(i);
+                    }
+                    2 => {
+                        c.spec.authority.remove(i);
+                    }
+                    _ => {
+                        c.spec.additional.remove(i);
+                    }
+                }
+                if still(&c) {
+                    cur = c;
+                    progress = true;
+                } else {
+                    i += 1;
+                }
+            }
+        }
+        if cur.opt.is_some() {
+            let mut c = cur.clone();
+            c.opt = None;
+            if still(&c) {
+                cur = c;
+                progress = true;
+            }
+        }
+        // shrink blobs, strings, ttl, flags
+        let n_recs = cur.spec.answers.len() + cur.spec.authority.len() + cur.spec.additional.len();
+        for ri in 0..n_recs {
+            let nf = rec_mut(&mut cur.spec, ri).fields.len();
+            for fi in 0..nf {
+                let mut c = cur.clone();
+                let fixed = matches!(rec_mut(&mut c.spec, ri).rtype, refdns::t::NSAP | refdns::t::EUI48 | refdns::t::EUI64);
+                let changed = match &mut rec_mut(&mut c.spec, ri).fields[fi] {
+                    F::Bytes(b) if b.len() > 1 && !fixed => {
+                        b.truncate(b.len() / 2);
+                        true
+                    }
+                    F::Str(s) if s.len() > 1 => {
+                        s.truncate(s.len() / 2);
+                        true
+                    }
+                    _ => false,
+                };
+                if changed {
+                    // keep length-prefixed pairs coherent (SVCB params / NSEC windows)
+                    fix_len_prefix(rec_mut(&mut c.spec, ri));
+                    if still(&c) {
+                        cur = c;
+                        progress = true;
+                    }
+                }
+            }
+            let mut c = cur.clone();
+            let rec = rec_mut(&mut c.spec, ri);
+            if rec.ttl != 0 || rec.cache_flush {
+                rec.ttl = 0;
+                rec.cache_flush = false;
+                if still(&c) {
+                    cur = c;
+                    progress = true;
+                }
+            }
+        }
+        if cur.spec.flags != 0 || cur.spec.id != 0 {
+            let mut c = cur.clone();
+            c.spec.flags &= 0x8000;
+            c.spec.id = 0;
+            if still(&c) {
+                cur = c;
+                progress = true;
+            }
+        }
+        // simplify the writer
+        if let Some(w) = cur.writer.clone() {
+            for cand in simpler_writers(&w) {
+                let mut c = cur.clone();
+                c.writer = Some(cand);
+                if still(&c) {
+                    cur = c;
+                    progress = true;
+                    break;
+                }
+            }
+        }
+    }
+    cur.minimised = true;
+    if let Some(fd) = check_one(&cur.property, &cur.spec, cur.opt.as_ref(), cur.mode, cur.writer.as_ref()).into_iter().find(|f| f.sig == cur.signature) {
+        cur.detail = fd.detail;
+    }
+    cur
+}
+
+fn rec_mut(spec: &mut MsgSpec, i: usize) -> &mut refdns::Rec {
+    let a = spec.answers.len();
+    let b = spec.authority.len();
+    if i < a {
+        &mut spec.answers[i]
+    } else if i < a + b {
+        &mut spec.authority[i - a]
+    } else {
+        &mut spec.additional[i - a - b]
+    }
+}
+
+fn fix_len_prefix(rec: &mut refdns::Rec) {
+    use refdns::t;
+    if rec.rtype == t::SVCB || rec.rtype == t::HTTPS {
+        let mut i = 2;
+        while i + 2 < rec.fields.len() {
+            if let F::Bytes(b) = &rec.fields[i + 2] {
+                let l = b.len() as u16;
+                rec.fields[i + 1] = F::U16(l);
+            }
+            i += 3;
+        }
+    }
+    if rec.rtype == t::NSEC {
+        let mut i = 1;
+        while i + 2 < rec.fields.len() {
+            if let F::Bytes(b) = &rec.fields[i + 2] {
+                let l = b.len() as u8;
+                rec.fields[i + 1] = F::U8(l);
+            }
+            i += 3;
+        }
+    }
+}
+
+fn simpler_writers(w: &WriterCfg) -> Vec<WriterCfg> {
+    let mut v = Vec::new();
+    match w {
+        WriterCfg::CursorVec { origin, prefill } | WriterCfg::CursorVecRef { origin, prefill } => {
+            if *origin > 2 {
+                v.push(WriterCfg::CursorVec { origin: 2, prefill: 2 + prefill.saturating_sub(*origin) });
+                v.push(WriterCfg::CursorVec { origin: 1, prefill: 1 + prefill.saturating_sub(*origin) });
+            }
+            if *prefill > *origin {
+                v.push(WriterCfg::CursorVec { origin: *origin, prefill: *origin });
+            }
+            if *origin > 0 {
+                v.push(WriterCfg::CursorVec { origin: 0, prefill: prefill.saturating_sub(*origin) });
+            }
+        }
+        WriterCfg::Sim { origin, prefill, cap, faults } => {
+            if faults.len() > 1 {
+                for i in 0..faults.len() {
+                    let mut f2 = faults.clone();
+                    f2.remove(i);
+                    v.push(WriterCfg::Sim { origin: *origin, prefill: *prefill, cap: *cap, faults: f2 });
+                }
+            }
+            if *origin > 0 && cap.is_none() {
+                v.push(WriterCfg::Sim { origin: 0, prefill: prefill.saturating_sub(*origin), cap: None, faults: faults.clone() });
+            }
+            if faults.is_empty() && cap.is_none() {
+                v.push(WriterCfg::CursorVec { origin: *origin, prefill: *prefill });
+            }
+        }
+        _ => {}
+    }
+    v
+}
+
+#[derive(Deserialize)]
+struct KnownFinding {
+    status: String,
+    property: String,
+    #[serde(default)]
+    signature_prefix: String,
+    #[serde(default)]
+    what: String,
+}
+
+fn load_known(prop: &str) -> Vec<KnownFinding> {
+    let p = Path::new("/verif/known_findings.json");
+    let Ok(s) = std::fs::read_to_string(p) else { return vec![] };
+    let all: Vec<KnownFinding> = match serde_json::from_str(&s) {
+        Ok(v) => v,
+        Err(e) => {
+            eprintln!("harness error: known_findings.json unreadable: {}", e);
+            std::process::exit(2);
+        }
+    };
+    all.into_iter().filter(|k| k.property == prop && k.status == "known" && !k.signature_prefix.is_empty()).collect()
+}
+
+fn sanitize(s: &str) -> String {
+    s.chars().map(|c| if c.is_ascii_alphanumeric() || c == '-' { c } else { '_' }).collect()
+}
+
+fn main() {
+    simwriter::install_quiet_panic_hook();
+    let args: Vec<String> = std::env::args().collect();
+    if args.len() < 3 {
+        eprintln!("usage: wiresim check <C04|C07> [--tier quick|thorough] [--seed N] [--cases N] [--jobs N] | wiresim replay <file>");
+        std::process::exit(2);
+    }
+    if args[1] == "replay" {
+        std::process::exit(replay(&args[2]));
+    }
+    if args[1] != "check" {
+        eprintln!("unknown command");
+        std::process::exit(2);
+    }
+    let prop = args[2].clone();
+    if prop != "C04" && prop != "C07" {
+        eprintln!("wiresim serves C04 and C07");
+        std::process::exit(2);
+    }
+    let mut tier_name = std::env::var("VERIF_TIER").unwrap_or_else(|_| "quick".into());
+    let mut seed: u64 = std::env::var("VERIF_SEED").ok().and_then(|s| s.parse().ok()).unwrap_or(1);
+    let mut cases_override: Option<u64> = None;
+    let mut jobs: usize = std::thread::available_parallelism().map(|n| n.get()).unwrap_or(8).min(16);
+    let mut i = 3;
+    while i < args.len() {
+        match args[i].as_str() {
+            "--tier" => {
+                tier_name = args[i + 1].clone();
+                i += 1;
+            }
+            "--seed" => {
+                seed = args[i + 1].parse().expect("seed");
+                i += 1;
+            }
+            "--cases" => {
+                cases_override = Some(args[i + 1].parse().expect("cases"));
+                i += 1;
+            }
+            "--jobs" => {
+                jobs = args[i + 1].parse().expect("jobs");
+                i += 1;
+            }
+            _ => {}
+        }
+        i += 1;
+    }
+    let mut tier = match (prop.as_str(), tier_name.as_str()) {
+        ("C04", "thorough") => Tier { cases: 240_000, exhaustive_len: 600, samples_per_dim: 48 },
+        ("C04", _) => Tier { cases: 12_000, exhaustive_len: 300, samples_per_dim: 24 },
+        ("C07", "thorough") => Tier { cases: 600_000, exhaustive_len: 0, samples_per_dim: 8 },
+        (_, _) => Tier { cases: 40_000, exhaustive_len: 0, samples_per_dim: 8 },
+    };
+    if let Some(c) = cases_override {
+        tier.cases = c;
+    }
+    println!("wire-sim property={} tier={} VERIF_SEED={} cases={} jobs={}", prop, tier_name, seed, tier.cases, jobs);
+    let t0 = Instant::now();
+    let tier = std::sync::Arc::new(tier);
+    let mut handles = Vec::new();
+    for j in 0..jobs {
+        let prop = prop.clone();
+        let tier = tier.clone();
+        handles.push(std::thread::Builder::new().stack_size(16 << 20).spawn(move || {
+            let mut st = Stats::default();
+            let mut found: BTreeMap<String, Replay> = BTreeMap::new();
+            let mut c = j as u64;
+            while c < tier.cases {
+                let case_seed = mix(seed, mix(hash_bytes(prop.as_bytes()), c));
+                let mut r = Rng::new(case_seed);
+                let cfg = case_cfg(&mut r, &prop);
+                let (spec, opt) = gen::packet(&mut r, &cfg);
+                let out = run_case(&prop, &spec, opt.as_ref(), &mut r, &tier, &mut st);
+                for (fd, mode, w) in out.findings {
+                    if fd.prop != prop {
+                        continue;
+                    }
+                    found.entry(fd.sig.clone()).or_insert_with(|| Replay {
+                        property: prop.clone(),
+                        signature: fd.sig.clone(),
+                        detail: fd.detail.clone(),
+                        verif_seed: seed,
+                        case_seed: c,
+                        minimised: false,
+                        spec: spec.clone(),
+                        opt: opt.clone(),
+                        mode,
+                        writer: w,
+                    });
+                }
+                c += jobs as u64;
+            }
+            (st, found)
+        }).unwrap());
+    }
+    let mut st = Stats::default();
+    let mut found: BTreeMap<String, Replay> = BTreeMap::new();
+    for h in handles {
+        let (s, fnd) = match h.join() {
+            Ok(x) => x,
+            Err(_) => {
+                eprintln!("harness error: worker thread panicked: {}", simwriter::take_panic());
+                std::process::exit(2);
+            }
+        };
+        st.merge(s);
+        for (k, v) in fnd {
+            match found.get(&k) {
+                Some(old) if old.case_seed <= v.case_seed => {}
+                _ => {
+                    found.insert(k, v);
+                }
+            }
+        }
+    }
+    let wall = t0.elapsed().as_secs_f64();
+
+    // ---- triage: minimise, persist, verify that each replay reproduces
+    let known = load_known(&prop);
+    let mut violations = 0;
+    let mut known_hits = 0;
+    let dir = PathBuf::from(format!("/verif/replays/{}", prop));
+    let _ = std::fs::create_dir_all(&dir);
+    let mut lines = Vec::new();
+    for (sig, rp) in &found {
+        let min = minimise(rp);
+        let path = dir.join(format!("{}.json", sanitize(sig)));
+        std::fs::write(&path, serde_json::to_string_pretty(&min).unwrap()).expect("write replay");
+        // the replay must reproduce in this process before we report it
+        let again = check_one(&min.property, &min.spec, min.opt.as_ref(), min.mode, min.writer.as_ref());
+        if !again.iter().any(|f| &f.sig == sig) {
+            eprintln!("harness error: replay {} does not reproduce {}", path.display(), sig);
+            std::process::exit(2);
+        }
+        if let Some(k) = known.iter().find(|k| sig.starts_with(&k.signature_prefix)) {
+            known_hits += 1;
+            lines.push(format!("KNOWN-FINDING: property={} {} [{}] replay={}", prop, k.what, sig, path.display()));
+        } else {
+            violations += 1;
+            lines.push(format!("VIOLATION property={} replay={}", prop, path.display()));
+            lines.push(format!("  signature: {}", sig));
+            lines.push(format!("  detail: {}", min.detail));
+        }
+    }
+
+    // ---- evidence
+    let (evaluations, distinct, rule) = if prop == "C04" {
+        (
+            st.execs + st.frame_checks,
+            st.nontrivial.len() as u64,
+            "cases = seeded packets (swarm-configured: sizes, label style, OPT, 0..n entries per section over all typed RDATA variants); for each packet and mode {plain, compressed} the reference bytes from build_bytes_vec* are walked by the independent refdns reader (framing) and every writer configuration is executed: std writer kinds x origins {0,2,k} x {empty, pre-filled}; fixed capacities 0..=len+2 (exhaustive up to the tier's length bound, boundary-biased sample above); the simulated device with a hard error at each write/seek/flush call index and at device byte offsets; transparent short writes / EINTR. An execution is non-trivial when a fault actually fired, the capacity was binding, the origin was non-zero or the storage was pre-filled; distinct = distinct (packet, mode, writer configuration) hashes among those.",
+        )
+    } else {
+        (
+            st.ptr_checks,
+            st.ptr_nontrivial.len() as u64,
+            "cases = seeded packets with heavy suffix sharing (names drawn from a small pool built by prepending labels), 12% of them large enough to cross offset 16383; the compressed output of build_bytes_vec_compressed and of write_compressed_to into devices at origins {0,2,k}, fresh or pre-filled, with transparent faults, is walked by a schema-guided walker that knows the intended name at every position. A message is non-trivial when it contains at least one compression pointer; distinct = distinct (message bytes, origin) hashes among those.",
+        )
+    };
+    let ev = serde_json::json!({
+        "property_id": prop,
+        "tier": if tier_name == "thorough" { "thorough" } else { "quick" },
+        "seed": seed,
+        "level": if prop == "C04" { "fault_enumeration" } else { "exploration" },
+        "wall_s": wall,
+        "violations": violations,
+        "coverage": {
+            "evaluations": evaluations,
+            "distinct_nontrivial": distinct,
+            "rule": rule,
+            "samples": st.samples,
+            "packets": st.cases,
+            "executions_against_real_serialisers": st.execs,
+            "executions_per_hour": (st.execs as f64 / wall * 3600.0) as u64,
+            "framing_walks": st.frame_checks,
+            "pointer_walks": st.ptr_checks,
+            "record_types_exercised": st.rtypes.len(),
+            "writer_kinds": st.writer_kinds,
+            "faults_planned": st.fault_planned,
+            "faults_fired": st.fault_fired,
+            "capacity_binding_runs": st.capacity_binding,
+            "origin_nonzero_runs": st.origin_nonzero,
+            "prefilled_runs": st.prefilled,
+            "max_message_len": st.max_len,
+            "messages_over_16383": st.msgs_over_16k,
+            "skipped_over_65535": st.over_64k_skipped,
+            "probes": {
+                "names_walked": st.ptr.names,
+                "pointers_checked": st.ptr.pointers,
+                "names_at_no_compression_positions": st.ptr.never_names,
+                "repeats_that_must_be_pointers": st.ptr.must_repeats,
+                "names_written_beyond_16383": st.ptr.beyond_16k_names,
+                "repeats_of_names_first_written_beyond_16383": st.ptr.repeats_of_beyond_16k,
+                "walker_desync_left_to_C04": st.ptr.desync,
+            },
+            "known_findings_hit": known_hits,
+            "components": {
+                "real": ["simple_dns::Packet::{build_bytes_vec, build_bytes_vec_compressed, write_to, write_compressed_to}", "std::io::Cursor / Vec / &mut [u8] writers"],
+                "simulated": ["SimWriter (Write + Seek device with fault plan)"],
+                "oracle_only": ["refdns independent reader/walker"],
+            },
+        },
+        "assumptions": [
+            "the reference bytes are the same tree's build_bytes_vec*, so a legitimate change of compression strategy cannot alarm",
+            "a fault counts only if it fired; capacity faults are implementation independent",
+            "packets are built through public constructors within DNS size limits (labels 1..=63, names <= 255, strings <= 255, message <= 65535)",
+        ],
+    });
+    let _ = std::fs::create_dir_all("/verif/evidence");
+    std::fs::write(format!("/verif/evidence/{}.json", prop), serde_json::to_string_pretty(&ev).unwrap()).expect("write evidence");
+
+    for l in &lines {
+        println!("{}", l);
+    }
+    println!(
+        "wire-sim {}: {} packets, {} executions, {} distinct non-trivial, {} violation signature(s), {} known, {:.1}s",
+        prop, st.cases, st.execs, distinct, violations, known_hits, wall
+    );
+    // coverage floor: never pass vacuously
+    if prop == "C07" && st.ptr.pointers < 100 {
+        eprintln!("harness error: insufficient coverage (pointers checked = {})", st.ptr.pointers);
+        std::process::exit(2);
+    }
+    if prop == "C04" && st.nontrivial.len() < 100 {
+        eprintln!("harness error: insufficient coverage");
+        std::process::exit(2);
+    }
+    std::process::exit(if violations > 0 { 1 } else { 0 });
+}
+
+fn replay(path: &str) -> i32 {
+    let s = match std::fs::read_to_string(path) {
+        Ok(s) => s,
+        Err(e) => {
+            eprintln!("harness error: cannot read {}: {}", path, e);
+            return 2;
+        }
+    };
+    let rp: Replay = match serde_json::from_str(&s) {
+        Ok(r) => r,
+        Err(e) => {
+            eprintln!("harness error: bad replay file: {}", e);
+            return 2;
+        }
+    };
+    let fds = check_one(&rp.property, &rp.spec, rp.opt.as_ref(), rp.mode, rp.writer.as_ref());
+    println!("replay {}: mode {:?}, writer {:?}", path, rp.mode, rp.writer);
+    for f in &fds {
+        println!("  finding {} :: {}", f.sig, f.detail);
+    }
+    if fds.iter().any(|f| f.sig == rp.signature) {
+        println!("VIOLATION property={} replay={}", rp.property, path);
+        1
+    } else {
+        println!("not reproduced: signature {} absent", rp.signature);
+        0
+    }
+}
